@@ -337,6 +337,10 @@ static pixman_image_t *ih_build (const ih_in *s, ih_own *o, int second_cb)
     else if (s->type == SOLID)
     {
         im->solid.color.alpha = s->salpha;
+        /* the narrow and float presentations of the colour as pixman_image_create_solid_fill derives them (image invariant:
+         * the three presentations describe the same colour); colour channels 0 */
+        im->solid.color_32 = (uint32_t) (s->salpha >> 8) << 24;
+        im->solid.color_float.a = (float) (s->salpha / 65535.0);
     }
     else
     {
